@@ -685,3 +685,33 @@ func freeVarBinding(fv *ssa.FreeVar) ssa.Value {
 	})
 	return out
 }
+
+// resolveVal sees through loads of single-assignment local cells (parameters
+// spilled to an Alloc because a field address is taken) and conversions.
+func resolveVal(v ssa.Value) ssa.Value {
+	for i := 0; i < 8; i++ {
+		u, ok := v.(*ssa.UnOp)
+		if !ok || u.Op != token.MUL {
+			return v
+		}
+		a, ok := u.X.(*ssa.Alloc)
+		if !ok {
+			return v
+		}
+		st := storesTo(a)
+		if len(st) != 1 {
+			return v
+		}
+		v = st[0].Val
+	}
+	return v
+}
+
+// sameVal: two SSA values denote the same run-time value (identical, or loads
+// of the same single-assignment cell).
+func sameVal(a, b ssa.Value) bool {
+	if a == b {
+		return true
+	}
+	return resolveVal(a) == resolveVal(b)
+}
